@@ -47,8 +47,9 @@ class Arg:
 
 
 class Skel:
-    def __init__(self, name, opts, args, cmds=(), base=None):
+    def __init__(self, name, opts, args, cmds=(), base=None, warm=()):
         self.name, self.opts, self.args, self.cmds, self.base = name, list(opts), list(args), list(cmds), base
+        self.warm = list(warm)      # (skeleton, well-formed tokens) pairs: other formats of the same tree that were used before this one is
         elements = [CommandName(n, list(al)) for n, al in self.cmds] + [o.build() for o in self.opts] + [a.build() for a in self.args]
         self.fmt = ArgsFormat(elements, base.fmt if base else None)
         self.all_opts = (base.all_opts if base else []) + self.opts
@@ -70,3 +71,21 @@ S7 = Skel("S7", [Opt("maybe", "m", "opt", "int"), Opt("ff", None, "opt", "float"
 S8 = Skel("S8", [], [Arg("a", "req"), Arg("rest", "multireq")])
 
 SKELS = {s.name: s for s in (S1, S2, S3, S4, S5, S6, S7, S8)}
+
+# a tree of formats, three levels deep: global <- command <- {sub-command a, sub-command b}; the format under test is used AFTER a sibling /
+# a derived format of the same tree was used for a parse (formats are immutable: that must not matter)
+ROOT9 = Skel("R9", [Opt("verbose", "v", "flag")], [])
+MID9 = Skel("M9", [], [Arg("first", "req")], cmds=[("remote", ["rm"])], base=ROOT9)
+LEAF9A = Skel("L9A", [], [Arg("name", "req"), Arg("extra", "opt")], cmds=[("add", ["a"])], base=MID9)
+S9 = Skel("S9", [], [Arg("target", "opt", "int")], cmds=[("remove", ["del"])], base=MID9, warm=[(LEAF9A, ["remote", "add", "x", "y", "z"])])
+S10 = Skel("S10", [], [Arg("first", "req")], cmds=[("remote", ["rm"])], base=ROOT9, warm=[(LEAF9A, ["remote", "add", "x", "y"])])
+S10.fmt = MID9.fmt           # the very format object the leaf is derived from
+SKELS_CHAIN = {"S9": S9, "S10": S10}
+SKELS_ALL = dict(SKELS)
+SKELS_ALL.update(SKELS_CHAIN)
+
+# options whose optional value has a default of the declared NATIVE type (an int for an INTEGER option, ...): used by C02
+S11 = Skel("S11", [Opt("port", "p", "opt", "int", default=80), Opt("flag", "f", "flag")], [Arg("a", "opt")])
+S12 = Skel("S12", [Opt("sure", "s", "opt", "bool", default=True), Opt("ratio", "r", "opt", "float", default=1.5)], [])
+SKELS_NATIVE = {"S11": S11, "S12": S12}
+SKELS_ALL.update(SKELS_NATIVE)
